@@ -40,18 +40,7 @@ QUICK = [
     ("ch-create", CH, 2, 2, 2, 0, 2, 3, "create"), ("mix-stackdefault", MIX, 2, 2, 1, 0, 1, 0, "stackdefault"),
 ]
 THOROUGH = [
-    # scripts of <= 4 steps: every program without main-context action; one action for programs of <= 8 (7) steps in total
-    ("ch-len4", CH, 3, 4, 0, 0, 16), ("mu-len4", MU, 3, 4, 0, 0, 16), ("sem0-len4", SEM, 3, 4, 0, 0, 16), ("sem1-len4", SEM, 3, 4, 0, 1, 16), ("bc-len4", BC, 3, 4, 0, 0, 16),
-    ("ch-len4-1act", CH, 3, 4, 1, 0, 32, 8), ("mu-len4-1act", MU, 3, 4, 1, 0, 32, 8), ("sem0-len4-1act", SEM, 3, 4, 1, 0, 32, 8), ("sem1-len4-1act", SEM, 3, 4, 1, 1, 16, 7), ("bc-len4-1act", BC, 3, 4, 1, 0, 16, 7),
-    # scripts of <= 3 steps: every program with one action; two actions for programs of <= 6 steps in total
-    ("ch", CH, 3, 3, 1, 0, 16), ("mu", MU, 3, 3, 1, 0, 16), ("sem0", SEM, 3, 3, 1, 0, 16), ("sem1", SEM, 3, 3, 1, 1, 16), ("bc", BC, 3, 3, 1, 0, 16),
-    ("ch-2acts", CH, 3, 3, 2, 0, 32, 6), ("mu-2acts", MU, 3, 3, 2, 0, 32, 6), ("sem0-2acts", SEM, 3, 3, 2, 0, 32, 6), ("bc-2acts", BC, 3, 3, 2, 0, 32, 6),
-    ("mu-len4-2acts", MU, 3, 4, 2, 0, 48, 6),
-    ("condAll", COND, 3, 3, 1, 0, 16, 6), ("condAny", COND, 3, 3, 1, 1, 16, 6), ("condAll-2acts", COND, 3, 2, 2, 0, 8, 4), ("condAny-2acts", COND, 3, 2, 2, 1, 8, 4),
-    ("bcc", BCC, 3, 2, 1, 0, 16),
-    ("mix", MIX, 3, 2, 1, 0, 32), ("mix-2r", MIX, 2, 3, 1, 0, 16), ("jcc3", JCC3, 3, 2, 1, 0, 32), ("jcc3-2acts", JCC3, 3, 2, 2, 0, 8, 3),
-    ("jccf", JCCF, 3, 2, 1, 0, 16, 4), ("jccf-0act", JCCF, 3, 2, 0, 0, 8, 5),
-    ("jcc2", JCC2, 2, 3, 1, 0, 16, 5), ("jcc2-2acts", JCC2, 2, 2, 2, 0, 16),
+    # the small families come first, so that a run that hits its deadline on a loaded machine has explored them
     # add() / wait() as separate steps, one-element sets
     ("condAll-split", CONDX, 2, 3, 1, 0, 8), ("condAny-split", CONDX, 2, 3, 1, 1, 8), ("condAll-split-2acts", CONDX, 2, 3, 2, 0, 16), ("condAny-split-2acts", CONDX, 2, 3, 2, 1, 16),
     ("condAll-split-3r", CONDX, 3, 2, 1, 0, 8), ("condAny-split-3r", CONDX, 3, 2, 1, 1, 8),
@@ -64,6 +53,18 @@ THOROUGH = [
     # Mutex::Locker sections, main-context create, default stack size
     ("mu-locker", MUL, 3, 3, 1, 0, 16, 6), ("mu-4r-crit", MU4C, 4, 2, 1, 0, 4), ("ch-create", CH, 3, 2, 2, 0, 16, 4, "create"), ("sem-create", SEM, 2, 2, 2, 0, 8, 3, "create"),
     ("mix-stackdefault", MIX, 2, 2, 1, 0, 4, 0, "stackdefault"), ("jcc2-stackdefault", JCC2, 2, 2, 1, 0, 4, 0, "stackdefault"),
+    # scripts of <= 4 steps: every program without main-context action; one action for programs of <= 8 (7) steps in total
+    ("ch-len4", CH, 3, 4, 0, 0, 16), ("mu-len4", MU, 3, 4, 0, 0, 16), ("sem0-len4", SEM, 3, 4, 0, 0, 16), ("sem1-len4", SEM, 3, 4, 0, 1, 16), ("bc-len4", BC, 3, 4, 0, 0, 16),
+    ("ch-len4-1act", CH, 3, 4, 1, 0, 32, 8), ("mu-len4-1act", MU, 3, 4, 1, 0, 32, 8), ("sem0-len4-1act", SEM, 3, 4, 1, 0, 32, 8), ("sem1-len4-1act", SEM, 3, 4, 1, 1, 16, 7), ("bc-len4-1act", BC, 3, 4, 1, 0, 16, 7),
+    # scripts of <= 3 steps: every program with one action; two actions for programs of <= 6 steps in total
+    ("ch", CH, 3, 3, 1, 0, 16), ("mu", MU, 3, 3, 1, 0, 16), ("sem0", SEM, 3, 3, 1, 0, 16), ("sem1", SEM, 3, 3, 1, 1, 16), ("bc", BC, 3, 3, 1, 0, 16),
+    ("ch-2acts", CH, 3, 3, 2, 0, 32, 6), ("mu-2acts", MU, 3, 3, 2, 0, 32, 6), ("sem0-2acts", SEM, 3, 3, 2, 0, 32, 6), ("bc-2acts", BC, 3, 3, 2, 0, 32, 6),
+    ("mu-len4-2acts", MU, 3, 4, 2, 0, 48, 6),
+    ("condAll", COND, 3, 3, 1, 0, 16, 6), ("condAny", COND, 3, 3, 1, 1, 16, 6), ("condAll-2acts", COND, 3, 2, 2, 0, 8, 4), ("condAny-2acts", COND, 3, 2, 2, 1, 8, 4),
+    ("bcc", BCC, 3, 2, 1, 0, 16),
+    ("mix", MIX, 3, 2, 1, 0, 32), ("mix-2r", MIX, 2, 3, 1, 0, 16), ("jcc3", JCC3, 3, 2, 1, 0, 32), ("jcc3-2acts", JCC3, 3, 2, 2, 0, 8, 3),
+    ("jccf", JCCF, 3, 2, 1, 0, 16, 4), ("jccf-0act", JCCF, 3, 2, 0, 0, 8, 5),
+    ("jcc2", JCC2, 2, 3, 1, 0, 16, 5), ("jcc2-2acts", JCC2, 2, 2, 2, 0, 16),
 ]
 ASAN_INFO = [("asan-ch", CH, 3, 2, 1, 0, 2, 4), ("asan-mu", MU, 3, 3, 0, 0, 2, 6), ("asan-sem", SEM, 3, 2, 1, 0, 2, 4), ("asan-bc", BC, 3, 2, 1, 0, 2, 4),
              ("asan-cond", COND, 3, 2, 0, 0, 2), ("asan-jcc2", JCC2, 2, 2, 1, 0, 2, 3), ("asan-cond-split", CONDX, 2, 2, 1, 0, 1), ("asan-jccs", JCCS, 2, 2, 1, 0, 1)]
